@@ -386,6 +386,22 @@ def isfile_guarded(ctx, fn, node):
     """The statement is control-dependent on os.path.isfile(<content path>) being true."""
     g = C.cfg_of(fn)
     n = C.stmt_node(ctx, fn, node)
+
+    def is_isfile(a):
+        return isinstance(a, ast.Call) and (C.is_ext_call(ctx, a, fn, ("os.path.isfile",)) or (isinstance(a.func, ast.Attribute) and a.func.attr == "is_file"))
+
+    def isfile_local(a):
+        # single = os.path.isfile(<content path>), bound once
+        if isinstance(a, ast.Name):
+            bl = ctx.res.bindings(fn).get(a.id, [])
+            return len(bl) == 1 and bl[0][0] == "value" and is_isfile(bl[0][1])
+        return False
+    # the value sits in the true arm of a conditional expression `X if <isfile> else Y`
+    child, par = node, ctx.prog.parent.get(node)
+    while par is not None and not isinstance(par, ast.stmt):
+        if isinstance(par, ast.IfExp) and child is par.body and (is_isfile(par.test) or isfile_local(par.test)):
+            return True
+        child, par = par, ctx.prog.parent.get(par)
     if n is None:
         return False
     for b, lab in g.control_deps(n):
@@ -393,6 +409,8 @@ def isfile_guarded(ctx, fn, node):
         if t is None:
             continue
         for a in C.atoms_of(t):
+            if isfile_local(a) and C.branch_when(b, lambda x, a=a: True if x is a else None) == lab:
+                return True
             if isinstance(a, ast.Call) and (C.is_ext_call(ctx, a, fn, ("os.path.isfile",)) or (isinstance(a.func, ast.Attribute) and a.func.attr == "is_file")):
                 if C.branch_when(b, lambda x, a=a: True if x is a else None) == lab:
                     return True
@@ -484,7 +502,14 @@ def run(ctx):
             return
         if path and path[0] in ("info", "piece layers"):
             n_info += 1
-            judge(ctx, "C08.1", fn, node, path, labs, where, allow_raw_name=isfile_guarded(ctx, fn, node))
+            allow = isfile_guarded(ctx, fn, node)
+            if not allow and "raw-name" in labs:
+                # X if <single file> else Y: the bare name may appear in X only
+                conds = [e for e in exprs if isinstance(e, ast.IfExp)]
+                if conds and len(conds) == len([e for e in exprs if e is not None]) and all(
+                        isfile_guarded(ctx, fn, c.body) and "raw-name" not in lab.of(flow.term(c.orelse, fn)) for c in conds):
+                    allow = True
+            judge(ctx, "C08.1", fn, node, path, labs, where, allow_raw_name=allow)
         else:
             n_top += 1
             key = path[0] if path else None
